@@ -96,8 +96,9 @@ const bankSize = 720
 
 // bankType is type #i of the bank: two fields, three tag names, rules that
 // depend on i (so all types are distinct and each tag name judges differently).
-// bankTags: the bank types carry rule sets under twelve tag names.
-var bankTags = []string{"valid", "alipay", "wechat", "t3", "t4", "t5", "t6", "t7", "t8", "t9", "t10", "t11"}
+// bankTags: the bank types carry rule sets under twelve tag names, and under ten pairs of names
+// that collide under common 32-bit string hashes (collide_test.go).
+var bankTags = append([]string{"valid", "alipay", "wechat", "t3", "t4", "t5", "t6", "t7", "t8", "t9", "t10", "t11"}, collidingTags()...)
 
 func bankType(i int) desc.T {
 	ty := bankType3(i)
